@@ -1156,9 +1156,13 @@ def case_size(c):
 # running
 # ---------------------------------------------------------------------------------------------
 def run_one(case, tmp):
-    d = tempfile.mkdtemp(prefix="case_", dir=tmp)
+    # one directory per format and worker, wiped and refilled for every case: consecutive cases of a format rewrite the SAME
+    # paths with other contents (often of the same size), so a reader that remembers files by path is exposed
+    d = os.path.join(tmp, "fmt_" + case["fmt"])
+    shutil.rmtree(d, ignore_errors=True)
+    os.makedirs(d)
     try:
-        return FORMATS[case["fmt"]](case, d)
+        return FORMATS[case["fmt"]]({k: v for k, v in case.items() if k != "_prev"}, d)
     finally:
         shutil.rmtree(d, ignore_errors=True)
 
@@ -1177,8 +1181,12 @@ def run_batch(batch):
     res = {"evals": 0, "n_nontrivial": 0, "samples": [], "outcomes": {}, "violations": [], "parts": {}}
     tmp = tempfile.mkdtemp(prefix="c13_", dir=_ROOT)
     try:
+        last = {}
         for case in batch:
             out = run_one(case, tmp)
+            if out.fails and case["fmt"] in last:
+                case = dict(case, _prev={k: v for k, v in last[case["fmt"]].items() if k not in ("sample", "_prev")})  # replay re-runs the predecessor first
+            last[case["fmt"]] = case
             res["evals"] += 1
             res["parts"][case["fmt"]] = res["parts"].get(case["fmt"], 0) + 1
             if out.nontrivial:
@@ -1199,6 +1207,8 @@ def replay(case):
     case = {k: v for k, v in case.items() if k != "sample"}
     tmp = tempfile.mkdtemp(prefix="c13_")
     try:
+        if case.get("_prev"):
+            run_one(dict(case["_prev"]), tmp)   # same paths, earlier contents
         out = run_one(case, tmp)
     finally:
         shutil.rmtree(tmp, ignore_errors=True)
@@ -1247,6 +1257,7 @@ def run(rep, tier, seed, parts=None):
         "NDBC historical r1/r2 files are in hundredths and the directional density is C11*(1/pi)(0.5+r1 cos(A-a1)+r2 cos(2(A-a2))) (NDBC measdes.shtml)",
         "WW3 transfer-file directions are going-to bearings in radians (ww3_outp writes MOD(2.5*PI-TH,TPI)); densities m2/Hz/rad, frequency index fastest",
         "Spotter/Datawell 2-D: only the direction integral, non-negativity and the location of the spreading peak (within one bin of the file's mean direction) are demanded, not a particular spreading shape",
+        "every case of a format is written to the same paths as the previous case of that format in the same worker (stale per-path caches are visible); a failing case records its predecessor so that --replay reproduces the sequence",
         "XWaves is NOT covered: there is no sample file or format description outside the reader, so no independent encoder of the MAT layout can be written (a MAT-file with td stored as MATLAB doubles makes read_xwaves raise TypeError, with integer td it reads; which one real XWaves files use cannot be established here)",
         "TRIAXYS position (header line 1) is not returned by the reader and is not demanded; NDBC missing-value 999 records and pre-1999 two-digit-year headers are not generated",
     ]
